@@ -7,4 +7,5 @@ import (
 
 // extras: tables extracted from packages other than defaults (added per property).
 func extras(fset *token.FileSet, repo string, b *strings.Builder) {
+	extrasC17(fset, repo, b)
 }
